@@ -162,9 +162,9 @@ func cmdCheck(args []string) int {
 		seed, _ = strconv.Atoi(s)
 	}
 	t0 := time.Now()
-	timeout := 30
+	timeout := 60
 	if *tier == "thorough" {
-		timeout = 120
+		timeout = 180
 	}
 	w, err := LoadWorld(*repo)
 	if err != nil {
@@ -275,6 +275,17 @@ func cmdCheck(args []string) int {
 				obls = append(obls, ob)
 			}
 		}
+	}
+	// the vacuity guards of clauses that belong to other properties are left to those properties' checks
+	{
+		kept := obls[:0]
+		for _, ob := range obls {
+			if ob.Cover && strings.Contains(ob.Name, "/cover(antecedent(") && !hasPropTag(ob.CoverTags, *prop) {
+				continue
+			}
+			kept = append(kept, ob)
+		}
+		obls = kept
 	}
 	workers := runtime.NumCPU() / 3
 	if workers < 2 {
